@@ -188,6 +188,14 @@ Ext == <<
    E("pshufw mm1, mm2, 0x1b", {"mm2"}, {"mm1"}, {}),
    E("psllq xmm1, 4", {"xmm1"}, {"xmm1"}, {}),
    E("pslldq xmm3, 4", {"xmm3"}, {"xmm3"}, {}),
+   \* the shift-by-immediate groups 0F 71/72/73 on register number 0 and 7 of each class (the register field is decoded apart)
+   E("psrld xmm0, 3", {"xmm0"}, {"xmm0"}, {}),
+   E("psllw xmm7, 1", {"xmm7"}, {"xmm7"}, {}),
+   E("psraw mm0, 2", {"mm0"}, {"mm0"}, {}),
+   E("psrlq mm7, 8", {"mm7"}, {"mm7"}, {}),
+   E("psrldq xmm0, 1", {"xmm0"}, {"xmm0"}, {}),
+   E("paddd xmm0, xmm7", {"xmm0", "xmm7"}, {"xmm0"}, {}),
+   E("pxor mm0, mm7", {"mm0", "mm7"}, {"mm0"}, {}),
    E("psrlw mm1, mm2", {"mm1", "mm2"}, {"mm1"}, {}),
    E("addps xmm1, xmm2", {"xmm1", "xmm2"}, {"xmm1"}, {}),
    E("addsd xmm1, qword ptr [ebx]", {"xmm1", "ebx", "mem[ebx]"}, {"xmm1"}, {}),
